@@ -295,3 +295,33 @@ Proof.
   rewrite <- G1, <- render_with_commas.
   rewrite (C01_expansion _ (wf_with_commas _ G3)). rewrite denote_with_commas, G2. reflexivity.
 Qed.
+
+(* ---------- the expanded form reads back as well: its text is the names joined by commas (HLPrintFacts.deranged_fit) ---------- *)
+Lemma range_hosts_plain r : rprint r -> Forall (fun n => n <> [] /\ plain_text n = true) (range_hosts r).
+Proof.
+  intros ((Hok & _) & Hpl & Hnm & _). unfold range_hosts. destruct (single r) eqn:Es.
+  - constructor; [|constructor]. split; [exact (Hnm Es)|exact Hpl].
+  - apply Forall_map. apply Forall_forall. intros n _. split.
+    + intro E. apply app_eq_nil in E as [_ E]. revert E. apply fmt_nonempty.
+    + unfold plain_text in *. rewrite forallb_app, Hpl. apply plain_fmt.
+Qed.
+
+Lemma expand_plain l : Forall rprint l -> Forall (fun n => n <> [] /\ plain_text n = true) (expand l).
+Proof.
+  induction l as [|r rest IH]; intro H; [constructor|]. inversion H; subst. rewrite expand_cons.
+  apply Forall_app. split; [apply range_hosts_plain; assumption|apply IH; assumption].
+Qed.
+
+Theorem deranged_roundtrip l : printable l -> targets (join 44 (expand l)) = Ok (expand l).
+Proof.
+  intros (P1 & P2 & _). pose proof (expand_plain l P1) as Hpl.
+  set (names := expand l) in *.
+  assert (R : render (with_commas (map WPlain names)) = join 44 names).
+  { rewrite render_with_commas, map_map. cbn [render_word]. rewrite map_id. reflexivity. }
+  assert (D : denote (with_commas (map WPlain names)) = names).
+  { rewrite denote_with_commas. clear. induction names as [|n r IH]; [reflexivity|]. cbn [map flat_map denote_word app]. rewrite IH. reflexivity. }
+  assert (W : Forall word_wf (map WPlain names)).
+  { apply Forall_map. apply Forall_forall. intros n Hn. rewrite Forall_forall in Hpl, P2.
+    destruct (Hpl n Hn) as [N1 N2]. destruct (P2 n Hn) as [_ S2]. cbn [word_wf]. repeat split; assumption. }
+  rewrite <- R. rewrite (C01_expansion _ (wf_with_commas _ W)). rewrite D. reflexivity.
+Qed.
